@@ -49,6 +49,10 @@ VARIABLES
   awaited,    \* [Workers -> SUBSET Pid]           Worker.awaited
   awaitersFor,\* [Workers -> [SUBSET Pid -> Seq(Pid)]]  Worker.awaiters_for_target
   resultReq,  \* [Workers -> SUBSET Pid]           Worker.pending_result_requests
+  effecting,  \* [Workers -> SUBSET Pid]           Executor.effecting
+  nextRef,    \* [Workers -> Nat]                  Executor.next_ref
+  owner,      \* resource -> owning pid            Environment.resource_ownership (association list)
+  backend,    \* [open: SUBSET Nat, next: Nat]     the effect backend's registry
   proc,       \* [Pids -> process record]          Executor.processes (of the hosting worker)
   router,     \* [allocated pids -> Workers]       Environment.process_router
   nextPid,    \*                                   Environment.next_process_id
@@ -57,8 +61,8 @@ VARIABLES
   outcome,    \* None / Some(result) of the entry process as delivered to the host
   obs         \* observation history for the properties (RuntimeProps)
 
-vars == <<cmdQ, evtQ, runq, spawning, selecting, awaited, awaitersFor, resultReq,
-          proc, router, nextPid, pending, now, outcome, obs>>
+vars == <<cmdQ, evtQ, runq, spawning, selecting, awaited, awaitersFor, resultReq, effecting, nextRef,
+          owner, backend, proc, router, nextPid, pending, now, outcome, obs>>
 
 (* ---------------------------------------------------------------------- *)
 (* Process records                                                        *)
@@ -84,6 +88,7 @@ EmptyRegs == [i \in 1..NRegs |-> Nil]
 (* ---------------------------------------------------------------------- *)
 WS(w) == [w |-> w, runq |-> runq[w], spawning |-> spawning[w], selecting |-> selecting[w],
           awaited |-> awaited[w], awaitersFor |-> awaitersFor[w], resultReq |-> resultReq[w],
+          effecting |-> effecting[w], nextRef |-> nextRef[w],
           proc |-> proc, out |-> <<>>, obs |-> obs, halt |-> FALSE]
 
 Emit(S, e)  == [S EXCEPT !.out = Append(@, e)]
@@ -94,7 +99,7 @@ Wake(S, p)  == IF p \in S.selecting
 Status(S, t) ==   \* executor.rs get_status
   IF ~S.proc[t].live THEN "unknown"
   ELSE IF Contains(S.runq, t) THEN "active"
-  ELSE IF t \in S.spawning \/ t \in S.selecting THEN "waiting"
+  ELSE IF t \in S.spawning \/ t \in S.selecting \/ t \in S.effecting THEN "waiting"
   ELSE IF S.proc[t].result # None /\ ~S.proc[t].result[1].ok THEN "failed"
   ELSE IF S.proc[t].result # None THEN "completed"
   ELSE "active"
@@ -157,6 +162,15 @@ HandleCmd(S, c) ==
                                   !.obs.arrived[c.to] = Append(@, c.m)]
                    ELSE S
          IN Wake(S1, c.to)
+    [] c.t = "EffectCompletion" ->   \* executor.rs notify_effect_completion
+         LET P == S.proc[c.p]
+             op == Scripts[P.script][P.pc]
+             S1 == [S EXCEPT !.effecting = @ \ {c.p}]
+             S2 == IF ~P.live THEN S1
+                   ELSE IF c.ok
+                   THEN [S1 EXCEPT !.proc[c.p].regs[op.dst] = c.v, !.proc[c.p].pc = @ + 1]
+                   ELSE [S1 EXCEPT !.proc[c.p].result = Some(ErrV("InvalidArgument:Effect operation failed: " \o c.e))]
+         IN IF c.p \in S.effecting THEN [S2 EXCEPT !.runq = Append(@, c.p)] ELSE S2
     [] c.t = "QueryAndAwait" -> QueryTargets(S, c.a, c.ts, <<>>)
     [] c.t = "UpdateAwaitResults" ->
          IF AnySome(c.rs) THEN ApplyResults(S, c.a, c.rs)
@@ -318,6 +332,15 @@ ExecOp(S, p) ==
                       [t |-> "DeliverAction", to |-> target.p, m |-> m])
     [] op.op = "select" -> ExecSelect(S, p)
     [] op.op = "let"    -> [S EXCEPT !.proc[p].regs[op.dst] = Eval(op.val, P.regs), !.proc[p].pc = @ + 1]
+    [] op.op = "mint"   ->         \* builtins/reference.rs: (worker_id << 48) | next_ref
+         [S EXCEPT !.proc[p].regs[op.dst] = [k |-> "ref", w |-> S.w, c |-> S.nextRef],
+                   !.proc[p].pc = @ + 1, !.nextRef = @ + 1,
+                   !.obs.minted = Append(@, [k |-> "ref", w |-> S.w, c |-> S.nextRef])]
+    [] op.op \in {"open", "use", "close"} ->   \* a builtin returning Action::RequestEffect: park in `effecting`
+         IF op.op # "open" /\ P.regs[op.reg].k # "res" THEN Fail(S, p, "TypeMismatch")
+         ELSE Emit([S EXCEPT !.effecting = @ \cup {p}, !.halt = TRUE],
+                   [t |-> "EffectRequest", p |-> p, op |-> op.op,
+                    res |-> IF op.op = "open" THEN None ELSE Some(P.regs[op.reg].r)])
     [] op.op = "fail"   -> Fail(S, p, op.e)
     [] op.op = "ret"    -> [S EXCEPT !.proc[p].result = Some(OkR(Eval(op.val, P.regs))), !.halt = TRUE]
 
@@ -347,7 +370,7 @@ NotifyLocal(S, p, order) ==
 \* after the instruction loop: requeue or finish
 AfterSlice(S, p) ==
   IF S.proc[p].result # None THEN S
-  ELSE IF p \in S.spawning \/ p \in S.selecting THEN S
+  ELSE IF p \in S.spawning \/ p \in S.selecting \/ p \in S.effecting THEN S
   ELSE [S EXCEPT !.runq = Append(@, p)]
 
 (* ---- worker.rs check_completed_processes ---- *)
@@ -386,9 +409,11 @@ Commit(S, w, k) ==
   /\ awaited' = [awaited EXCEPT ![w] = S.awaited]
   /\ awaitersFor' = [awaitersFor EXCEPT ![w] = S.awaitersFor]
   /\ resultReq' = [resultReq EXCEPT ![w] = S.resultReq]
+  /\ effecting' = [effecting EXCEPT ![w] = S.effecting]
+  /\ nextRef' = [nextRef EXCEPT ![w] = S.nextRef]
   /\ proc' = S.proc
   /\ obs' = S.obs
-  /\ UNCHANGED <<router, nextPid, pending, now, outcome>>
+  /\ UNCHANGED <<router, nextPid, pending, now, outcome, owner, backend>>
 
 WorkerStep(w, k, fuel) ==
   /\ k <= Len(cmdQ[w])
@@ -418,23 +443,46 @@ MergeRs(a, b) ==
 
 GotNow(rs) == {rs[i][1] : i \in {i \in 1..Len(rs) : rs[i][2] # None}}
 
+\* resources owned by pid t
+OwnedBy(t) == {r \in AKeys(owner) : AGet(owner, r) = t}
+
+RECURSIVE Transfer(_, _, _)
+Transfer(ow, rs, to) == IF rs = {} THEN ow
+                        ELSE LET r == CHOOSE x \in rs : TRUE IN Transfer(APut(ow, r, to), rs \ {r}, to)
+
+ResInRegs(regs) == UNION {ResIn(regs[i]) : i \in 1..Len(regs)}
+TopRes(regs) == {regs[i].r : i \in {i \in 1..Len(regs) : regs[i].k = "res"}}
+
+\* environment.rs cleanup_process_resources for every finished process in `ts`
+RECURSIVE Cleanup(_, _, _, _)
+Cleanup(ow, be, log, rs) ==      \* rs: resources to close, closed in ascending order (hash order in the code)
+  IF rs = {} THEN <<ow, be, log>>
+  ELSE LET r == Min(rs) IN
+       Cleanup(ADel(ow, r), [be EXCEPT !.open = @ \ {r}],
+               Append(log, [call |-> "close", res |-> r, was_open |-> r \in be.open]), rs \ {r})
+
 EnvHandle(w) ==
   /\ evtQ[w] # <<>>
   /\ LET e == Head(evtQ[w]) IN
      /\ evtQ' = [evtQ EXCEPT ![w] = Tail(@)]
      /\ CASE e.t = "SpawnAction" ->      \* environment.rs handle_spawn
                /\ nextPid < MaxPid
-               /\ \E place \in (IF Placement = "mod" THEN {nextPid % NW} ELSE Workers) :
+               /\ \E place \in (IF Placement = "any" THEN Workers
+                                ELSE IF \E r \in TopRes(e.regs) : AHas(owner, r)
+                                THEN {router[AGet(owner, r)] : r \in {r \in TopRes(e.regs) : AHas(owner, r)}}
+                                ELSE {nextPid % NW}) :
                     /\ router' = (nextPid :> place) @@ router
                     /\ cmdQ' = Send(Send(cmdQ, place,
                                          [t |-> "SpawnProcess", id |-> nextPid, script |-> e.script,
                                           regs |-> e.regs, path |-> e.path]),
                                     router[e.c], [t |-> "NotifySpawn", p |-> e.c, pid |-> nextPid])
+               /\ owner' = Transfer(owner, ResInRegs(e.regs), nextPid)
                /\ nextPid' = nextPid + 1
-               /\ UNCHANGED <<pending, outcome, obs>>
+               /\ UNCHANGED <<pending, outcome, obs, backend>>
           [] e.t = "DeliverAction" ->    \* environment.rs handle_deliver
                /\ cmdQ' = Send(cmdQ, router[e.to], [t |-> "DeliverMessage", to |-> e.to, m |-> e.m])
-               /\ UNCHANGED <<router, nextPid, pending, outcome, obs>>
+               /\ owner' = Transfer(owner, ResIn(e.m), e.to)
+               /\ UNCHANGED <<router, nextPid, pending, outcome, obs, backend>>
           [] e.t = "AwaitAction" ->      \* environment.rs handle_await_processes
                LET ws == {router[e.ts[i]] : i \in 1..Len(e.ts)}
                    RECURSIVE Go(_, _)
@@ -446,10 +494,14 @@ EnvHandle(w) ==
                IN /\ pending' = APut(pending, e.a, [expected |-> ws, responses |-> <<>>])
                   /\ cmdQ' = Go(cmdQ, ws)
                   /\ obs' = [obs EXCEPT !.envGot[e.a] = {}]
-                  /\ UNCHANGED <<router, nextPid, outcome>>
+                  /\ UNCHANGED <<router, nextPid, outcome, owner, backend>>
           [] e.t = "ProcessResults" ->   \* environment.rs handle_process_results
-               LET sw == router[e.rs[1][1]] IN
+               LET sw == router[e.rs[1][1]]
+                   cl == Cleanup(owner, backend, obs.backend, UNION {OwnedBy(t) : t \in GotNow(e.rs)})
+                   obs1 == [obs EXCEPT !.backend = cl[3]]
+               IN
                /\ UNCHANGED <<router, nextPid, outcome>>
+               /\ owner' = cl[1] /\ backend' = cl[2]
                /\ IF AHas(pending, e.a)
                   THEN LET pa == AGet(pending, e.a)
                            old == IF AHas(pa.responses, sw) THEN AGet(pa.responses, sw) ELSE <<>>
@@ -463,23 +515,50 @@ EnvHandle(w) ==
                           THEN /\ pending' = ADel(pending, e.a)
                                /\ cmdQ' = Send(cmdQ, router[e.a],
                                                [t |-> "UpdateAwaitResults", a |-> e.a, rs |-> All(resp)])
-                               /\ obs' = [obs EXCEPT !.updates = Append(@, [a |-> e.a, rs |-> All(resp), got |-> got]),
-                                                     !.envGot[e.a] = {}]
+                               /\ obs' = [obs1 EXCEPT !.updates = Append(@, [a |-> e.a, rs |-> All(resp), got |-> got]),
+                                                      !.envGot[e.a] = {}]
                           ELSE /\ pending' = APut(pending, e.a, [expected |-> exp, responses |-> resp])
                                /\ cmdQ' = cmdQ
-                               /\ obs' = [obs EXCEPT !.envGot[e.a] = got]
+                               /\ obs' = [obs1 EXCEPT !.envGot[e.a] = got]
                   ELSE /\ cmdQ' = Send(cmdQ, router[e.a], [t |-> "UpdateAwaitResults", a |-> e.a, rs |-> e.rs])
-                       /\ UNCHANGED <<pending, obs>>
+                       /\ pending' = pending /\ obs' = obs1
           [] e.t = "ResultResponse" ->   \* environment.rs handle_result_response
                /\ outcome' = Some(e.r)
-               /\ UNCHANGED <<cmdQ, router, nextPid, pending, obs>>
-     /\ UNCHANGED <<runq, spawning, selecting, awaited, awaitersFor, resultReq, proc, now>>
+               /\ UNCHANGED <<cmdQ, router, nextPid, pending, obs, owner, backend>>
+          [] e.t = "EffectRequest" ->    \* environment.rs handle_effect_request
+               /\ UNCHANGED <<router, nextPid, pending, outcome>>
+               /\ IF e.res # None /\ AHas(owner, e.res[1]) /\ AGet(owner, e.res[1]) # e.p
+                  THEN \* ownership violation: an error completion, the backend is not touched
+                       /\ cmdQ' = Send(cmdQ, router[e.p],
+                                       [t |-> "EffectCompletion", p |-> e.p, ok |-> FALSE,
+                                        e |-> "Process " \o ToString(e.p) \o " does not own resource " \o ToString(e.res[1])])
+                       /\ UNCHANGED <<owner, backend, obs>>
+                  ELSE LET isOpen == e.res # None /\ e.res[1] \in backend.open
+                           okk == e.op = "open" \/ isOpen
+                           newRes == backend.next
+                           val == CASE e.op = "open" -> [k |-> "res", r |-> newRes]
+                                    [] e.op = "use" -> [k |-> "bin", b |-> <<47>>]
+                                    [] OTHER -> OkV
+                           entry == [call |-> "execute", p |-> e.p, op |-> e.op, res |-> e.res,
+                                     owner |-> IF e.res # None /\ AHas(owner, e.res[1])
+                                               THEN Some(AGet(owner, e.res[1])) ELSE None,
+                                     created |-> IF e.op = "open" THEN Some(newRes) ELSE None, ok |-> okk]
+                       IN /\ backend' = CASE e.op = "open" -> [open |-> backend.open \cup {newRes}, next |-> newRes + 1]
+                                           [] e.op = "close" /\ isOpen -> [backend EXCEPT !.open = @ \ {e.res[1]}]
+                                           [] OTHER -> backend
+                          /\ owner' = IF e.op = "open" THEN APut(owner, newRes, e.p) ELSE owner
+                          /\ obs' = [obs EXCEPT !.backend = Append(@, entry)]
+                          /\ cmdQ' = Send(cmdQ, router[e.p],
+                                          IF okk THEN [t |-> "EffectCompletion", p |-> e.p, ok |-> TRUE, v |-> val]
+                                          ELSE [t |-> "EffectCompletion", p |-> e.p, ok |-> FALSE,
+                                                e |-> "Invalid argument: closed"])
+     /\ UNCHANGED <<runq, spawning, selecting, awaited, awaitersFor, resultReq, effecting, nextRef, proc, now>>
 
 TickAny(d) ==
   /\ now + d <= MaxTick
   /\ now' = now + d
-  /\ UNCHANGED <<cmdQ, evtQ, runq, spawning, selecting, awaited, awaitersFor, resultReq,
-                 proc, router, nextPid, pending, outcome, obs>>
+  /\ UNCHANGED <<cmdQ, evtQ, runq, spawning, selecting, awaited, awaitersFor, resultReq, effecting, nextRef,
+                 owner, backend, proc, router, nextPid, pending, outcome, obs>>
 
 \* time is observable only through select timeouts, so the clock moves only while one is pending
 TimeoutPending == \E p \in Pids : /\ proc[p].live /\ proc[p].sel # None /\ proc[p].result = None
@@ -500,6 +579,10 @@ InitState(entry) ==
    awaited |-> [w \in Workers |-> {}],
    awaitersFor |-> [w \in Workers |-> <<>>],
    resultReq |-> [w \in Workers |-> {}],
+   effecting |-> [w \in Workers |-> {}],
+   nextRef |-> [w \in Workers |-> 0],
+   owner |-> <<>>,
+   backend |-> [open |-> {}, next |-> 1],
    \* the REPL's persistent process exists and sleeps (environment.rs start_process(None))
    proc |-> [p \in Pids |-> IF p = 0
                             THEN [NewProc(0, EmptyRegs, TRUE, <<>>) EXCEPT !.result = Some(OkR(Nil))]
@@ -512,7 +595,8 @@ InitState(entry) ==
    obs |-> [arrived |-> [p \in Pids |-> <<>>],
             sent |-> [p \in Pids |-> [q \in Pids |-> <<>>]],
             selects |-> <<>>, spawns |-> <<>>, updates |-> <<>>,
-            envGot |-> [p \in Pids |-> {}]]]
+            envGot |-> [p \in Pids |-> {}],
+            minted |-> <<>>, backend |-> <<>>]]
 
 Init ==
   LET I == InitState(1) IN
@@ -520,6 +604,7 @@ Init ==
   /\ selecting = I.selecting /\ awaited = I.awaited /\ awaitersFor = I.awaitersFor
   /\ resultReq = I.resultReq /\ proc = I.proc /\ router = I.router /\ nextPid = I.nextPid
   /\ pending = I.pending /\ now = I.now /\ outcome = I.outcome /\ obs = I.obs
+  /\ effecting = I.effecting /\ nextRef = I.nextRef /\ owner = I.owner /\ backend = I.backend
 
 Next ==
   \/ \E w \in Workers : \E k \in 0..Len(cmdQ[w]), fuel \in 0..MaxFuel : WorkerStep(w, k, fuel)
